@@ -558,3 +558,16 @@ PROPS["C12"]["functions"] += ["src/core/store/internal.rs::update_record_with_tt
 PROPS["C16"]["level_text"] += (" CLOCK policy, one arbitrary step of the bucket sweep (usage > low watermark assumed and re-established): an entry is evicted only if its own reference bit was read clear "
                                "(removed index = inspected index, index not advanced); a referenced entry is never removed in that step, its bit is cleared and the index advances; the sweep continues only above the watermark.")
 PROPS["C16"]["outside"] = "clear(), cache-on/off equivalence as executions, concurrency"
+_WF = H(SEQ, "c10_writer_token_fold", "nonzero_token(crc) == hi16 ^ lo16 with 0 stored as 1, for ALL u32 CRC values (writer side; the reader's copy is c03_record_token_fold)", "all u32")
+PROPS["C10"]["kani"].append(_WF)
+PROPS["C03"]["kani"].append(_WF)
+if not any(h["name"] == "c03_record_token_fold" for h in PROPS["C10"]["kani"]):
+    PROPS["C10"]["kani"].append(H(REC, "c03_record_token_fold", "recovery's record_token(crc) == the same fold, for ALL u32 CRC values", "all u32"))
+PROPS["C10"]["level_text"] += " Writer's and recovery's CRC-to-token folds equal the released rule (hi16 ^ lo16, 0 stored as 1) for ALL 2^32 CRC values."
+ALLOC_TEXT = (" E2, one arbitrary iteration of process_write_batch's allocation loop: a write with a reservation reuses exactly that sector; otherwise allocate_sectors(this write's "
+              "sectors_needed) and, only on Ok, reserve_sector(this entry, sector), disk_usage += sectors_needed*4096, the write remembers the sector and exactly one device write "
+              "(that sector, this write's data, token stamped for that sector) is queued; on failure nothing is queued/reserved/counted, the allocator lock is dropped before "
+              "release_allocations rolls the batch back, and no device call follows.")
+PROPS["C05"]["level_text"] += ALLOC_TEXT
+PROPS["C09"]["level_text"] += ALLOC_TEXT
+PROPS["C05"]["outside"] = "the partition at whole-store quiescent points as an execution, leak-freedom over long runs"
